@@ -1,6 +1,8 @@
 import Acra.Gen.Src.SimpleEthernet
 import Acra.Gen.Src.PES
 import Acra.Gen.Src.Chapter11
+import Acra.Gen.Src.PMT
+import Acra.Model.PMT
 import Acra.Model.Net
 import Acra.Model.PES
 import Acra.Model.Ch11
@@ -88,5 +90,19 @@ theorem src_get_checksum_byte_buf (buf : Bytes) :
     | cons w ws =>
       simp only [Except.map, bind, Except.bind, reduce_add_natCast, pymod_natCast_lit]
       rfl
+
+/-- `crc32mpeg2` (PMT section CRC) as written today = the model, for every byte string: the register is an
+    unbounded Python int that is masked once at the end -/
+theorem src_crc32mpeg2 (msg : Bytes) :
+    Gen.Src.PMT.crc32mpeg2 msg = (Model.PMT.crc32mpeg2 msg : Int) := by
+  unfold Gen.Src.PMT.crc32mpeg2 Model.PMT.crc32mpeg2 Py.bytesInts
+  have h := foldl_natCast
+    (fun (crc : Int) (b : Int) =>
+      List.foldl (fun (crc : Int) (_ : Int) =>
+        if band crc 2147483648 ≠ 0 then bxor (shl crc 1) 79764919 else shl crc 1) (bxor crc (shl b 24)) (Py.range 8))
+    Model.PMT.crcByte (fun (x : UInt8) => ((x.toNat : Nat) : Int)) crcByte_tie msg 4294967295
+  rw [show (((4294967295 : Nat) : Nat) : Int) = (4294967295 : Int) from rfl] at h
+  simp only [h, band_natCast_lit]
+  rw [and_low _ 4294967295 32 (by decide)]
 
 end Acra.Props.C07
